@@ -1012,17 +1012,34 @@ fn replay(args: &Args) {
             kept.push((id, keep));
         }
     });
+    // at most ANOM_CAP logged calls per (api, panic location): a gross defect must not produce
+    // a trace of millions of events (all of them are still counted)
+    const ANOM_CAP: usize = 300;
+    let mut seen_anom = std::collections::HashMap::<(String, String), usize>::new();
     kept.sort_by_key(|x| x.0);
     for (id, outs) in &kept {
         for o in outs {
+            if o[1].as_i64().unwrap_or(0) < 0 {
+                let c = seen_anom.entry((o[0].as_str().unwrap_or("").to_string(), o[4].as_str().unwrap_or("").to_string())).or_insert(0);
+                *c += 1;
+                if *c > ANOM_CAP {
+                    continue;
+                }
+            }
             emit_pair(&mut tr, *id, items[*id].1.len(), o);
         }
     }
     let n = tr.finish();
     anomalies.sort_by_key(|x| x.0);
+    let mut seen_anom = std::collections::HashMap::<(String, String), usize>::new();
     if let Some(p) = args.kv.get("anomalies") {
         let mut t = Trace::create(p);
         for (_, a) in anomalies {
+            let c = seen_anom.entry((a["api"].as_str().unwrap_or("").to_string(), a["loc"].as_str().unwrap_or("").to_string())).or_insert(0);
+            *c += 1;
+            if *c > ANOM_CAP {
+                continue;
+            }
             t.emit(a);
         }
         t.finish();
@@ -1104,32 +1121,55 @@ fn cli_stage(args: &Args) {
     let mut anomalies = vec![];
     let mut runs = 0u64;
     let mut inconclusive = 0u64;
+    // the job list (deterministic), then the runs in parallel, then the events in job order
+    struct Job {
+        id: usize,
+        label: String,
+        argv: Vec<String>,
+        stdin: bool,
+    }
+    let mut jobs: Vec<Job> = vec![];
     for (id, (fam, bytes)) in items.iter().enumerate() {
         let is_prog = fam == "jq" || fam == "jq1";
         let all = if is_prog { &prog_cmds } else { &doc_cmds };
-        // a seeded subset of the commands per input spreads the runs over inputs
+        if is_prog && (std::str::from_utf8(bytes).is_err() || bytes.contains(&0)) {
+            continue;
+        }
         let mut idx: Vec<usize> = (0..all.len()).collect();
         rng.shuffle(&mut idx);
         idx.truncate(per_input.max(1));
         idx.sort();
-        let cmds: Vec<&(&str, Vec<&str>)> = idx.iter().map(|i| &all[*i]).collect();
-        if is_prog && (std::str::from_utf8(bytes).is_err() || bytes.contains(&0)) {
-            continue;
-        }
-        std::fs::write(&file, bytes).unwrap_or_else(|e| die(&format!("write {file}: {e}")));
-        for (label, a) in cmds.iter().map(|c| (&c.0, &c.1)) {
+        let f = format!("{file}-{id}");
+        for i in idx {
+            let (label, a) = &all[i];
             let argv: Vec<String> = a
                 .iter()
                 .map(|x| match *x {
-                    "@FILE" => file.clone(),
+                    "@FILE" => f.clone(),
                     "@PROG" => String::from_utf8_lossy(bytes).to_string(),
                     o => o.to_string(),
                 })
                 .collect();
-            let uses_file = a.contains(&"@FILE");
-            let empty: [u8; 0] = [];
-            let stdin: &[u8] = if uses_file || is_prog { &empty } else { bytes };
-            let (kind, code, tail, outlen) = run_cli(&cli, &argv, stdin, to);
+            jobs.push(Job { id, label: label.to_string(), argv, stdin: !(a.contains(&"@FILE") || is_prog) });
+        }
+    }
+    for (id, (_, bytes)) in items.iter().enumerate() {
+        if jobs.iter().any(|j| j.id == id) {
+            let f = format!("{file}-{id}");
+            std::fs::write(&f, bytes).unwrap_or_else(|e| die(&format!("write {f}: {e}")));
+        }
+    }
+    let results = par_map(&jobs, args.u64("threads", 4) as usize, |_, j| {
+        let empty: [u8; 0] = [];
+        let stdin: &[u8] = if j.stdin { &items[j.id].1 } else { &empty };
+        run_cli(&cli, &j.argv, stdin, to)
+    });
+    for (id, _) in items.iter().enumerate() {
+        let _ = std::fs::remove_file(format!("{file}-{id}"));
+    }
+    for (j, (kind, code, tail, outlen)) in jobs.iter().zip(results) {
+        {
+            let (id, label, bytes) = (j.id, &j.label, &items[j.id].1);
             runs += 1;
             let api = format!("cli:{label}");
             let e = stats.entry(api.clone()).or_insert([0; 4]);
